@@ -436,3 +436,18 @@ pub open spec fn delete_folder_post(o: World, n: World, d: PathV) -> bool {
     &&& (forall|p: PathV| is_under(d, p) ==> #[trigger] at(n.fs, p) == at(o.fs, p) || at(n.fs, p) is None)
     &&& n.tr == o.tr.push(Ev::RemoveTree(d))
 }
+
+// ---- trace shapes of the commands that replace system files ---------------------------------------------------------
+// `systemctl stop` first, then events that neither stop nor start the service, and `systemctl start` as the last event
+pub open spec fn stop_work_start(o: Seq<Ev>, n: Seq<Ev>) -> bool {
+    n.len() > o.len() + 1 && n.last() == systemctl("start"@) && quiet_ext(o.push(systemctl("stop"@)), n.drop_last())
+}
+// restore: the same, optionally followed by the removal of the backup folder
+pub open spec fn restore_trace(o: Seq<Ev>, n: Seq<Ev>, delete_backup: bool) -> bool {
+    if delete_backup { n.len() > 0 && n.last() == Ev::RemoveTree(backup_dir()) && stop_work_start(o, n.drop_last()) } else { stop_work_start(o, n) }
+}
+pub broadcast proof fn lemma_push_drop_last(s: Seq<Ev>, e: Ev)
+    ensures #[trigger] s.push(e).drop_last() == s
+{
+    assert(s.push(e).drop_last() =~= s);
+}
